@@ -90,8 +90,15 @@ def random_graph(rng, nmax=14, allow_isolates=False):
     rng.shuffle(perm)
     g = nx.relabel_nodes(g, {v: perm[i] for i, v in enumerate(vs)})
     h = nx.Graph()
-    h.add_nodes_from(sorted(g.nodes()))
+    # vertex insertion order and edge orientation are free in the input: make them hostile (not sorted) half of the time
+    nodes = sorted(g.nodes())
     es = [tuple(sorted(e)) for e in g.edges()]
     rng.shuffle(es)
+    if rng.random() < 0.5:
+        rng.shuffle(nodes)
+        es = [e if rng.random() < 0.5 else (e[1], e[0]) for e in es]
+        if rng.random() < 0.5:
+            nodes = []          # vertices appear in the order the edges mention them
+    h.add_nodes_from(nodes)
     h.add_edges_from(es)
     return d, h
